@@ -519,6 +519,21 @@ func c03Gen(tp *Tapes) *c03Spec {
 			op.Kind = "create"
 			op.Via = []string{"FromString", "FromBytes", "FromFile", "FromCache", "RenderTemplateString", "RenderTemplateBytes", "RenderTemplateFile"}[g.Draw(7)]
 			u := &c03Use{}
+			if len(creates) > 0 && g.Draw(4) == 0 {
+				// repeat an earlier use verbatim (same files), typically on another set: state
+				// that one set leaves behind must not let another set's banned code through
+				prev := sp.Ops[creates[g.Draw(len(creates))]]
+				cp := *prev.Use
+				op.Use = &cp
+				op.Dir = prev.Dir
+				c03Build(&op, op.Dir, sp.Files)
+				if (op.Via == "FromFile" || op.Via == "FromCache" || op.Via == "RenderTemplateFile") && f.Draw(5) == 4 {
+					op.Fault = true
+				}
+				creates = append(creates, i)
+				sp.Ops = append(sp.Ops, op)
+				continue
+			}
 			if g.Draw(3) != 0 {
 				t := pool[g.Draw(len(pool))]
 				u.IsTag, u.Target = t.isTag, t.name
